@@ -14,7 +14,7 @@ from ..oracle import spectrum as O
 LEVEL = "exploration"
 NEEDS = ["harness", "cli"]
 RULE = ("L: shapes with 1-5 axes, lengths 1-6 (quick: all <=3-axis shapes with lengths<=4 plus a seeded sample of larger ones; "
-        "thorough: many more), integer data < 2^40, EVERY ordered subset of axes incl. the full set, plus duplicate and "
+        "thorough: many more), integer data < 2^40 (exact) and fractional / wide-magnitude data (per-cell summation error bound), EVERY ordered subset of axes incl. the full set, plus duplicate and "
         "out-of-range requests; chains of one-at-a-time removals for a sample. C: view -m/-M on text/npy input, and "
         "create|view -m vs create on complete data. Non-trivial: >=2 axes, >=1 axis removed, removed axes not all of "
         "length 1, and data not constant; distinct = digest(shape, data, axes order).")
@@ -56,7 +56,12 @@ def check_L(S, p, tier):
         for i in range(p["shapes"]):
             rng = rng_for(seed, "c04", p["name"], i)
             shape = gen_shape(rng, i, tier)
-            data = GS.values(rng, O.prod(shape), rng.choice(["int", "bigint", "sparse"]))
+            kind = rng.choice(["int", "bigint", "sparse", "int", "real", "wide", "gap"])
+            if kind == "gap":
+                # a huge cell next to small / zero ones: a rounding remainder of one output cell must not leak into another
+                data = [rng.choice([1e16, 3e15 + 0.5, 0.0, 1.0, 0.25, 7.0]) for _ in range(O.prod(shape))]
+            else:
+                data = GS.values(rng, O.prod(shape), kind)
             d = len(shape)
             allorders = list(orders(d))
             if len(allorders) > 70:
@@ -67,7 +72,7 @@ def check_L(S, p, tier):
                     if len(set(q)) < len(q) or d in q]
             bad += seqs if len(seqs) <= 60 else rng.sample(seqs, 60)
             for axes in allorders:
-                cases.append({"shape": shape, "data": data, "axes": axes, "kind": "valid" if len(axes) < d else "toomany"})
+                cases.append({"shape": shape, "data": data, "axes": axes, "kind": "valid" if len(axes) < d else "toomany", "exact": kind in ("int", "bigint", "sparse")})
             for axes in bad:
                 cases.append({"shape": shape, "data": data, "axes": axes, "kind": "bad"})
     reqs = [{"op": "spec", "do": "marginalize", "shape": c["shape"], "data": GS.hexes(c["data"]), "axes": c["axes"]} for c in cases]
@@ -97,6 +102,21 @@ def check_L(S, p, tier):
             continue
         if "err" in r:
             S.viol("C04:valid-rejected", "[L %s] valid request rejected: %s" % (tag, r["err"]), wit)
+            continue
+        if not c.get("exact", True):
+            # floating data: every output cell must be the sum of ITS OWN terms; a correct summation in any order is within
+            # n*2^-52*sum|terms| of the exact value (standard bound), computed here per cell with exact rationals
+            from fractions import Fraction
+            fshape, fsum = O.marginalize(shape, [Fraction(x) for x in data], axes)
+            _, fabs = O.marginalize(shape, [abs(Fraction(x)) for x in data], axes)
+            nterms = O.prod(shape) // max(1, O.prod(fshape))
+            gshape, gdata = r["shape"], [h2f(x) for x in r["data"]]
+            badc = [(i, g, float(e)) for i, (g, e, a) in enumerate(zip(gdata, fsum, fabs))
+                    if abs(Fraction(g) - e) > a * nterms * Fraction(1, 2 ** 51)]
+            S.count("L_float_cells", len(gdata))
+            if gshape != fshape or badc:
+                S.viol("C04:value-float", "[L %s] cells differ from the sum of their own terms beyond the summation error bound: (flat, got, exact) %r" % (tag, badc[:4]), wit)
+            S.case(key=digest([shape, GS.hexes(data)[:40], axes, "f"]), nontrivial=d >= 2 and len(axes) >= 1)
             continue
         eshape, edata = O.marginalize(shape, [int(x) for x in data], axes)
         if ci < 50:
